@@ -11,7 +11,7 @@ Roots1 == {[t |-> 2, ev |-> 1, term |-> FALSE], [t |-> 3, ev |-> 2, term |-> TRU
 SimT0S == {-4, 0, 4}
 SimTFS == {-4, 0, 4, 8}
 SimDTS == {1, 2}
-SimTARGETS == {-4, -3, 0, 2, 5, 6}
+SimTARGETS == {-4, -3, 0, 2, 5, 6, 999, -999}      \* 999 / -999: indefinite integration (OdeSystem!Infinity), replayed as t = +-inf
 SimRoots == {[t |-> 1, ev |-> 1, term |-> FALSE], [t |-> 5, ev |-> 1, term |-> FALSE], [t |-> -3, ev |-> 1, term |-> FALSE],
              [t |-> 3, ev |-> 2, term |-> TRUE], [t |-> -2, ev |-> 2, term |-> TRUE],
              [t |-> 3, ev |-> 3, term |-> FALSE], [t |-> 7, ev |-> 3, term |-> FALSE]}
@@ -25,6 +25,7 @@ LandTFS == {16}
 LandDTS == {8}
 LandTARGETS == {12, 20, 4}
 LandRoots == {[t |-> 10, ev |-> 1, term |-> TRUE], [t |-> 14, ev |-> 1, term |-> TRUE], [t |-> 4, ev |-> 2, term |-> FALSE]}
+IndefTARGETS == {999, -999, 4, 0}
 NoCb == {}
 Cb1 == {1, 2}
 NoDev == {}
